@@ -4,7 +4,7 @@ CONSTANT Group <- MCGroup
 CONSTANT PureActs <- OnePure
 CONSTANT Tomos = {"qst", "povmt"}
 CONSTANT Datas = {"d1", "d2"}
-CONSTANT Modes = {"identity", "custom", "identity+eqonly"}
+CONSTANT Modes = {"identity", "custom", "inverse_sample_covariance", "identity+eqonly"}
 CONSTANT AsCoded = FALSE
 CONSTANT Emit = TRUE
 VIEW View
